@@ -37,6 +37,8 @@ Record state := {
 
 Inductive call :=
 | Fill (l : nat) (n : N)                     (* .fill() of an unfilled n-content group of lineage l *)
+| FillAt (l : nat) (n : N) (c : N)           (* .fill(counter=c): set_counter(c - 1), then n x get_counter();
+                                                send_async(counter=c, ..) = FillAt; Sign; Inject *)
 | Autofill (l : nat) (n : N) (sim_ok : bool) (* .autofill(); sim_ok = run_operation reports "applied" *)
 | Sign (g : nat)                             (* .sign() of filled group g *)
 | Inject (g : nat) (ok : bool)               (* .inject() of filled group g; ok = node accepts *)
@@ -78,6 +80,11 @@ Definition step (s : state) (c : call) : state * obs :=
         let b := base s l in
         let s1 := with_cache s (update l (b + n) (caches s)) in
         (add_group s1 {| g_lin := l; g_start := b + 1; g_len := n |}, OFilled (b + 1) n)
+  | FillAt l n c =>
+      if n =? 0 then (s, ORejected)
+      else
+        let s1 := with_cache s (update l (c - 1 + n) (caches s)) in
+        (add_group s1 {| g_lin := l; g_start := c - 1 + 1; g_len := n |}, OFilled (c - 1 + 1) n)
   | Autofill l n sim_ok =>
       if n =? 0 then (s, ORejected)
       else
@@ -136,6 +143,7 @@ Definition wb_call (s : state) (gh : ghost) (c : call) : bool :=
   match c with
   | Fill l n => negb (n =? 0) && negb (memb l (dirty gh)) && (pend s =? 0)
   | Autofill l n _ => negb (n =? 0) && negb (memb l (dirty gh))
+  | FillAt l n c => negb (n =? 0) && (c =? nc s + pend s + 1)      (* the caller chose the right counter *)
   | Sign _ => true
   | Inject g _ => match nth_error (stamps gh) g with Some st => st =? ninj gh | None => false end
   | Bake => true
@@ -144,6 +152,9 @@ Definition wb_call (s : state) (gh : ghost) (c : call) : bool :=
 Definition ghost_step (s : state) (gh : ghost) (c : call) : ghost :=
   match c with
   | Fill l n =>
+      if n =? 0 then gh
+      else {| dirty := l :: dirty gh; stamps := stamps gh ++ [ninj gh]; ninj := ninj gh |}
+  | FillAt l n _ =>
       if n =? 0 then gh
       else {| dirty := l :: dirty gh; stamps := stamps gh ++ [ninj gh]; ninj := ninj gh |}
   | Autofill l n sim_ok =>
